@@ -611,55 +611,108 @@ fn small(r: &mut Rng) -> f64 {
     r.dyadic()
 }
 
-/// `n` documents exactly as `to_json` writes them (raw text, written key order): first- and second-order numbers
-/// with 0..4 names and arbitrary finite doubles, float-noded curves with a named calendar, node dates from 1960 on
+/// `n` documents exactly as `to_json` writes them (raw text, written key order), cycling through every
+/// serialisable type: numbers of both orders with 0..4 names and arbitrary finite doubles; plain, union and named
+/// calendars; curves of every node kind (float, first order, second order) and calendar kind with node dates from
+/// 1960 on; splines of the three coefficient types, solved or not; FX markets with float or dual-number quotes
 pub fn emit_written<W: Write>(out: &mut W, r: &mut Rng, n: usize) {
     let names = ["x", "y", "z", "fx_eurusd"];
-    for i in 0..n {
+    let fin = |r: &mut Rng| crate::ser::any_finite(r);
+    let mk_vars = |r: &mut Rng| -> Vec<String> {
         let k = r.range(0, 4) as usize;
         let mut nm: Vec<&str> = names.to_vec();
         r.shuffle(&mut nm);
         nm.truncate(k);
-        let v: Vec<String> = nm.iter().map(|s| s.to_string()).collect();
-        let text = match i % 5 {
-            0 => {
-                let d: Vec<f64> = v.iter().map(|_| crate::ser::any_finite(r)).collect();
-                let x = Dual::try_new(crate::ser::any_finite(r), v, d).unwrap();
-                format!("{{\"Dual\":{}}}", serde_json::to_string(&x).unwrap())
+        nm.iter().map(|s| s.to_string()).collect()
+    };
+    let mk_dual = |r: &mut Rng| -> Dual {
+        let v = mk_vars(r);
+        let d: Vec<f64> = v.iter().map(|_| crate::ser::any_finite(r)).collect();
+        Dual::try_new(crate::ser::any_finite(r), v, d).unwrap()
+    };
+    let mk_dual2 = |r: &mut Rng| -> Dual2 {
+        let v = mk_vars(r);
+        let d: Vec<f64> = v.iter().map(|_| crate::ser::any_finite(r)).collect();
+        let h: Vec<f64> = (0..v.len() * v.len()).map(|_| crate::ser::any_finite(r)).collect();
+        Dual2::try_new(crate::ser::any_finite(r), v, d, h).unwrap()
+    };
+    let mk_cal = |r: &mut Rng| -> Cal {
+        let mut hols: Vec<chrono::NaiveDateTime> = Vec::new();
+        for _ in 0..r.range(0, 4) {
+            let d = crate::dates::day(r.range(-3000, 80000));
+            if !hols.contains(&d) {
+                hols.push(d);
             }
-            1 => {
-                let d: Vec<f64> = v.iter().map(|_| crate::ser::any_finite(r)).collect();
-                let h: Vec<f64> = (0..v.len() * v.len()).map(|_| crate::ser::any_finite(r)).collect();
-                let x = Dual2::try_new(crate::ser::any_finite(r), v, d, h).unwrap();
-                format!("{{\"Dual2\":{}}}", serde_json::to_string(&x).unwrap())
-            }
-            3 => {
-                // a float spline, solved or not: order 1..4, repeated end knots, 0..3 interior knots
-                let k = r.range(1, 4) as usize;
-                let mut t = vec![crate::ser::any_finite(r).abs().min(1e300) * -1.0; k];
-                let mut x = t[0];
-                for _ in 0..r.range(0, 3) {
-                    x += r.logu(1e-3, 1e3);
-                    t.push(x);
-                }
-                x += r.logu(1e-3, 1e3);
-                for _ in 0..k {
-                    t.push(x);
-                }
-                let n = t.len() - k;
-                let c = if r.chance(1, 2) { Some((0..n).map(|_| crate::ser::any_finite(r)).collect::<Vec<f64>>()) } else { None };
-                format!("{{\"PPSplineF64\":{}}}", serde_json::to_string(&Inner { inner: PPSpline::<f64>::new(k, t, c) }).unwrap())
-            }
+        }
+        let mask: Vec<u8> = (0..7u8).filter(|_| r.chance(1, 3)).collect();
+        Cal::new(hols, mask)
+    };
+    let mk_union = |r: &mut Rng| -> UnionCal {
+        let cs: Vec<Cal> = (0..r.range(1, 3)).map(|_| mk_cal(r)).collect();
+        let ss = if r.chance(1, 2) { Some((0..r.range(0, 2)).map(|_| mk_cal(r)).collect::<Vec<Cal>>()) } else { None };
+        UnionCal::new(cs, ss)
+    };
+    let knots = |r: &mut Rng, k: usize| -> Vec<f64> {
+        let mut t = vec![-(crate::ser::any_finite(r).abs().min(1e300)); k];
+        let mut x = t[0];
+        for _ in 0..r.range(0, 3) {
+            x += r.logu(1e-3, 1e3);
+            t.push(x);
+        }
+        x += r.logu(1e-3, 1e3);
+        for _ in 0..k {
+            t.push(x);
+        }
+        t
+    };
+    for i in 0..n {
+        let text = match i % 12 {
+            0 => format!("{{\"Dual\":{}}}", serde_json::to_string(&mk_dual(r)).unwrap()),
+            1 => format!("{{\"Dual2\":{}}}", serde_json::to_string(&mk_dual2(r)).unwrap()),
+            2 => format!("{{\"Cal\":{}}}", mk_cal(r).to_json().unwrap()),
+            3 => format!("{{\"UnionCal\":{}}}", mk_union(r).to_json().unwrap()),
             4 => {
-                // an FX market of 2..5 currencies with float quotes, dated or not
+                let nm = *r.pick(&["tgt", "ldn,tgt|fed", "nyc", "bus|all", "fed", "all"]);
+                format!("{{\"NamedCal\":{}}}", NamedCal::try_new(nm).unwrap().to_json().unwrap())
+            }
+            5 | 6 => {
+                // a spline, solved or not: order 1..4, repeated end knots, 0..3 interior knots
+                let k = r.range(1, 4) as usize;
+                let t = knots(r, k);
+                let nn = t.len() - k;
+                let solved = r.chance(1, 2);
+                match r.below(3) {
+                    0 => {
+                        let c = if solved { Some((0..nn).map(|_| fin(r)).collect::<Vec<f64>>()) } else { None };
+                        format!("{{\"PPSplineF64\":{}}}", serde_json::to_string(&Inner { inner: PPSpline::<f64>::new(k, t, c) }).unwrap())
+                    }
+                    1 => {
+                        let c = if solved { Some((0..nn).map(|_| mk_dual(r)).collect::<Vec<Dual>>()) } else { None };
+                        format!("{{\"PPSplineDual\":{}}}", serde_json::to_string(&Inner { inner: PPSpline::<Dual>::new(k, t, c) }).unwrap())
+                    }
+                    _ => {
+                        let c = if solved { Some((0..nn).map(|_| mk_dual2(r)).collect::<Vec<Dual2>>()) } else { None };
+                        format!("{{\"PPSplineDual2\":{}}}", serde_json::to_string(&Inner { inner: PPSpline::<Dual2>::new(k, t, c) }).unwrap())
+                    }
+                }
+            }
+            7 | 8 => {
+                // an FX market of 2..5 currencies, dated or not, quotes as floats or dual numbers of one order
                 let ccys = ["usd", "eur", "gbp", "jpy", "sek"];
                 let m = r.range(2, 5) as usize;
                 let settle = if r.chance(1, 2) { None } else { Some(crate::dates::day(r.range(0, 30000))) };
+                let kind = r.below(3);
                 let mut qs = Vec::new();
                 for j in 1..m {
                     let p = r.below(j as u64) as usize;
                     let (a, b) = if r.chance(1, 2) { (ccys[p], ccys[j]) } else { (ccys[j], ccys[p]) };
-                    qs.push(FXRate::try_new(a, b, Number::F64(r.logu(1e-4, 1e4)), settle).unwrap());
+                    let v = r.logu(1e-4, 1e4);
+                    let rate = match kind {
+                        0 => Number::F64(v),
+                        1 => Number::Dual(Dual::new(v, vec![format!("q{}", j)])),
+                        _ => Number::Dual2(Dual2::new(v, vec![format!("q{}", j)])),
+                    };
+                    qs.push(FXRate::try_new(a, b, rate, settle).unwrap());
                 }
                 let base = Ccy::try_new(ccys[r.below(m as u64) as usize]).unwrap();
                 let f = FXRates::try_new(qs, Some(base)).unwrap();
@@ -673,16 +726,21 @@ pub fn emit_written<W: Write>(out: &mut W, r: &mut Rng, n: usize) {
                     d += r.range(1, 4000);
                 }
                 let interp = *r.pick(&["linear", "log_linear", "linear_zero_rate", "flat_forward", "flat_backward"]);
-                let base = if r.chance(1, 2) { None } else { Some(crate::ser::any_finite(r)) };
+                let ad = *r.pick(&[ADOrder::Zero, ADOrder::One, ADOrder::Two]);
+                let base = if r.chance(1, 2) { None } else { Some(fin(r)) };
                 let conv = *r.pick(&[
                     Convention::One, Convention::OnePlus, Convention::Act365F, Convention::Act365FPlus, Convention::Act360,
                     Convention::ThirtyE360, Convention::Thirty360, Convention::Thirty360ISDA, Convention::ActActISDA,
                     Convention::ActActICMA, Convention::Bus252,
                 ]);
                 let modi = *r.pick(&[Modifier::Act, Modifier::F, Modifier::ModF, Modifier::P, Modifier::ModP]);
-                let cal = CalType::NamedCal(NamedCal::try_new(*r.pick(&["tgt", "nyc", "ldn,tgt|fed", "all"])).unwrap());
+                let cal = match r.below(3) {
+                    0 => CalType::Cal(mk_cal(r)),
+                    1 => CalType::UnionCal(mk_union(r)),
+                    _ => CalType::NamedCal(NamedCal::try_new(*r.pick(&["tgt", "nyc", "ldn,tgt|fed", "all"])).unwrap()),
+                };
                 let id = (*r.pick(&["c", "curve_A", "x1_", ""])).to_string();
-                let c = CurveHandle::new(map, interp, ADOrder::Zero, id, conv, modi, cal, base).unwrap();
+                let c = CurveHandle::new(map, interp, ad, id, conv, modi, cal, base).unwrap();
                 c.to_json().unwrap()
             }
         };
@@ -1101,7 +1159,7 @@ pub fn gen_c20<W: Write>(out: &mut W, thorough: bool, seed: u64) {
         }
 
         /* documents as written by to_json are of the model writer's form and load */
-        emit_written(out, &mut r, 10);
+        emit_written(out, &mut r, 12);
 
         /* loading from JSON text */
         for _ in 0..(if thorough { 160 } else { 320 }) {
